@@ -121,7 +121,8 @@ def main():
                 e = ex.add(*[ex.mul(ex.seqnk("binom", k, j), ex.seqn("bern", j), ex.powi(ex.Qf(xq), k - j)) for j in range(k + 1)]) if k else ex.Z(1)
                 # B_1 convention: bernpoly uses B_1 = -1/2, as BernSeq does
                 eid = len(events)
-                events.append(enc.event(eid, "oblig", [], p, "n", enc.sym("none"), pb=0, x={"defs": [], "j": ex.relabs_close(got, e, 8, p)}))
+                jj = ex.rel0_close(got, e, 8, p)
+                events.append(enc.event(eid, "oblig", [], p, "n", enc.sym("none"), pb=0, x={"defs": ex.take_defs(), "j": jj}))
                 meta[eid] = {"f": "bernpoly", "args": [k, str(xq)], "p": p}
             else:
                 k = rng.choice([1, 2, 3, 4, 5, 6, 7, 8, 9, 10, 12, 15, 30])
@@ -145,6 +146,34 @@ def main():
             pass
         finally:
             mp.prec = 53
+    # isprime on semiprimes (k+1)(mk+1) -- the classic families of strong pseudoprimes -- up to 3.4e14: the factorisation is
+    # an untrusted certificate verified by the spec (exact product, both factors > 1); isprime must answer False.
+    def small_prime(q):
+        return q > 1 and all(q % d_ for d_ in range(2, int(q ** 0.5) + 1))
+    cands = []
+    for m_ in (2, 3, 4, 5, 6, 7, 8, 10, 12):
+        for k in range(20, 6000):
+            a_, b_ = k + 1, m_ * k + 1
+            if a_ * b_ < 34 * 10 ** 13 and small_prime(a_) and small_prime(b_):
+                cands.append((a_, b_))
+    dense = [c_ for c_ in cands if c_[0] * c_[1] < 3 * 10 ** 7]
+    rng.shuffle(cands)
+    for a_, b_ in dense + cands[:chk.pick(150, 4000)]:
+        n_ = a_ * b_
+        got = mp.isprime(n_)
+        eid = len(events)
+        events.append(enc.event(eid, "oblig", [], 53, "n", enc.sym("none"), pb=0,
+                                x={"defs": [], "j": ex.allj(ex.eq(ex.mul(a_, b_), n_), ex.lt(1, a_), ex.lt(1, b_), ex.eq(1 if got else 0, 0))}))
+        meta[eid] = {"f": "isprime-semiprime", "args": [n_, a_, b_], "p": 53, "got": bool(got)}
+    # and primes below 10^8 must be reported prime (trial division in the spec)
+    for i in range(chk.pick(40, 600)):
+        q = rng.randint(10 ** 5, 10 ** 8) | 1
+        while not small_prime(q):
+            q += 2
+        got = mp.isprime(q)
+        eid = len(events)
+        events.append(enc.event(eid, "oblig", [], 53, "n", enc.sym("none"), pb=0, x={"defs": [], "j": ex.allj(ex.eq(ex.seqn("isprime", q), 1), ex.eq(1 if got else 0, 1))}))
+        meta[eid] = {"f": "isprime-prime", "args": [q], "p": 53, "got": bool(got)}
     bad = tlc.judge(events, tag=PROP)
     for ev in events:
         chk.count(); chk.distinct(json.dumps(meta[ev["id"]]), True)
